@@ -9,7 +9,7 @@
    true of IEEE round-to-nearest, not proved here for the Rust library routines);
    sort_unstable_by is specified by its contract (a sorted permutation). *)
 From Coq Require Import QArith Sorting.Sorted Sorting.Permutation.
-From Sophia.C14 Require Import Model Proofs.
+From Sophia.C14 Require Import Model Proofs Context ContextProofs.
 Close Scope Q_scope.
 Open Scope N_scope.
 
@@ -167,6 +167,69 @@ Check (@window_length : forall (A : Type) start len (l : list A),
 Check (filter_sorted : forall descs (keep : row -> bool) rs,
   sorted_ok descs rs = true -> sorted_ok descs (filter keep rs) = true).
 
+(* ---------- ORDER BY in its evaluation context (harness kinds c:.., model Context.v): the keys of an ORDER BY
+   are evaluated against the active graph of the SELECT it belongs to ---------- *)
+(* the sort: a permutation, strictly sorted for the keys evaluated against the graph_matcher that order_by
+   received; every sorted permutation (all that sort_unstable_by promises) is that sequence *)
+Check (@strictly_sorted_unique : forall (A : Type) (P : A -> Prop) (c : A -> A -> comparison),
+  (forall a b, P a -> P b -> c b a = CompOpp (c a b)) ->
+  forall l1 l2, Forall P l1 -> strictly_sorted c l1 = true -> Permutation l1 l2 ->
+    all_pairs_le (leb_of c) l2 = true -> l1 = l2).
+Check (order_by_output : forall ds gm keys q out o,
+  ceval ds gm (COrder keys q) = Some (out, o) ->
+  exists l o', ceval ds gm q = Some (l, o') /\ o = true /\ Permutation l out
+               /\ strictly_sorted (cmp_sol ds gm keys) out = true).
+Check (any_sorted_permutation_is_the_output : forall ds gm keys q l o' out o out',
+  ceval ds gm q = Some (l, o') -> ceval ds gm (COrder keys q) = Some (out, o) ->
+  Forall (keys_ok ds gm keys) l ->
+  Permutation l out' -> all_pairs_le (leb_of (cmp_sol ds gm keys)) out' = true ->
+  out' = out).
+Check (order_by_output_strict : forall ds gm keys q out o,
+  ceval ds gm (COrder keys q) = Some (out, o) ->
+  forall i j d, (i < j < length out)%nat ->
+    cmp_bindings_with order_by (map snd keys) (keys_of ds gm keys (nth i out d)) (keys_of ds gm keys (nth j out d)) = Lt).
+(* GRAPH <g> / GRAPH ?g replace the active graph, for the keys of the ORDER BYs below them too *)
+Check (graph_const_ignores_outer_graph : forall ds gm gm' g q,
+  ceval ds gm (CGraphC g q) = ceval ds gm' (CGraphC g q)).
+Check (graph_var_ignores_outer_graph : forall ds gm gm' v q,
+  ceval ds gm (CGraphV v q) = ceval ds gm' (CGraphV v q)).
+Check (subselect_under_graph_const : forall ds gm g vs keys st len q out o,
+  is_named ds g = true ->
+  ceval ds gm (CGraphC g (CSlice st len (CProject vs (COrder keys q)))) = Some (out, o) ->
+  exists l o' sorted,
+    ceval ds [Some g] q = Some (l, o') /\ Permutation l sorted
+    /\ strictly_sorted (cmp_sol ds [Some g] keys) sorted = true
+    /\ out = window st len (map (project_to vs) sorted)).
+Check (graph_const_not_named : forall ds gm g q,
+  is_named ds g = false -> ceval ds gm (CGraphC g q) = Some ([], false)).
+Check (graph_var_each_graph : forall ds gm v q out o,
+  ceval ds gm (CGraphV v q) = Some (out, o) ->
+  forall g, In g (graph_names ds) ->
+    exists l o', ceval ds [Some g] q = Some (l, o') /\ forall b, In b (join_graph v g l) -> In b out).
+(* EXISTS { pattern of the active graph } only sees the active graph, and its value does depend on it *)
+Check (exists_only_sees_the_active_graph : forall ds1 ds2 gm b p,
+  filter (fun q => in_matcher gm (qg q)) ds1 = filter (fun q => in_matcher gm (qg q)) ds2 ->
+  eval_exists ds1 gm b GActive p = eval_exists ds2 gm b GActive p).
+Check (key_value_depends_on_active_graph : exists ds b e g,
+  eval_expr ds default_matcher b e <> eval_expr ds [Some g] b e).
+(* keys evaluated against another graph than the active one: no difference without GRAPH, a different answer
+   with it (the witness is rejected by the checker that the harness uses) *)
+Check (keys_elsewhere_unobservable_without_graph : forall ds gm q,
+  no_graph q = true -> eval_keys_at gm ds gm q = ceval ds gm q).
+Check (keys_elsewhere_observable_under_graph :
+  ctx_ok w_ds w_query [0] [w_row 97; w_row 99] = true
+  /\ ctx_ok w_ds w_query [0] [w_row 98; w_row 97] = false
+  /\ option_map (fun r => map (row_of [0]) (fst r)) (eval_keys_at default_matcher w_ds default_matcher w_query)
+     = Some [w_row 98; w_row 97]).
+Check (ctx_ok_ordered : forall gm0 ds q vs out,
+  ctx_ok_at gm0 ds q vs out = true ->
+  exists l o, ceval ds gm0 q = Some (l, o) /\ length out = length l
+    /\ (o = true -> Forall2 (Forall2 (fun a b => cell_eqb a b = true)) (map (row_of vs) l) out)).
+Check (eval_expr_ok : forall ds gm b e,
+  (forall v i, lookup b v = Some i -> item_ok i) -> expr_ok e ->
+  forall i, eval_expr ds gm b e = Some i -> item_ok i).
+Check witness_hypotheses.
+
 (* non-vacuity *)
 Check order_by_on_witnesses.
 Check hypotheses_inhabited.
@@ -212,3 +275,19 @@ Print Assumptions window_sorted.
 Print Assumptions window_of_sorted_result.
 Print Assumptions window_length.
 Print Assumptions filter_sorted.
+Print Assumptions strictly_sorted_unique.
+Print Assumptions order_by_output.
+Print Assumptions any_sorted_permutation_is_the_output.
+Print Assumptions order_by_output_strict.
+Print Assumptions graph_const_ignores_outer_graph.
+Print Assumptions graph_var_ignores_outer_graph.
+Print Assumptions subselect_under_graph_const.
+Print Assumptions graph_const_not_named.
+Print Assumptions graph_var_each_graph.
+Print Assumptions exists_only_sees_the_active_graph.
+Print Assumptions key_value_depends_on_active_graph.
+Print Assumptions keys_elsewhere_unobservable_without_graph.
+Print Assumptions keys_elsewhere_observable_under_graph.
+Print Assumptions ctx_ok_ordered.
+Print Assumptions eval_expr_ok.
+Print Assumptions witness_hypotheses.
